@@ -666,3 +666,6 @@ PROPS["C09"]["claim"] += (" HISTORY FORM about the translated code (Proofs/EndTo
 PROPS["C15"]["proofs"] = PROPS["C15"]["proofs"] + ["Bmc.Proofs.C15Source"]
 PROPS["C15"]["claim"] += (" SOURCE TIES (Proofs/C15Source.lean, regenerated facts): lineariser_table_source / parser_table_source — which function each of the two lookup tables holds for which key, as in the source on this run; "
                           "sensor_reader_source — the bodies of the five reader functions, the two table look-ups and the two adapter methods are what Proto/Sensor.lean transcribes.")
+PROPS["C10"]["proofs"] = PROPS["C10"]["proofs"] + ["Bmc.Proofs.EndToEnd.SessionC10"]
+PROPS["C10"]["claim"] += (" generated_SendCommand_busy_then_final (Proofs/EndToEnd/SessionC10.lean): in a session, any number of conforming node-busy / timeout answers then a conforming final one — SendCommand AS TRANSLATED "
+                          "transmits the complete datagram for this command once per answer (next sequence number and IV draw each time) and returns the final code.")
